@@ -20,7 +20,7 @@ Proof.
 Qed.
 
 Definition zl_hash (l : list Z) : positive :=
-  Z.to_pos (1 + Z.abs (fold_left (fun h x => (h * 37 + x) mod 1073741789) l 11)).
+  Z.to_pos (1 + fold_left (fun h x => hmix h (Z.land x hmask)) l 11).
 
 Definition rstep := list Z -> list value -> list Z * res (list value).
 
